@@ -179,6 +179,8 @@ def run(prog, rep):
     rep.attempt(code_tables, prog, rep)
     from .. import primitives as PR
     rep.attempt(PR.tdftype_primitives, prog, rep)
+    from ..staging import staging_dtypes
+    rep.attempt(staging_dtypes, prog, rep)
     rep.attempt(PR.string_codec, prog, rep)
     rep.attempt(PR.date_codec, prog, rep)
     from ..codecs import no_stale_derived_state
